@@ -1252,8 +1252,8 @@ class Exec:
     def check_frame(self, ref, o, node):
         h_keys, mod = ref
         for key, val in o.heap.items():
-            if key not in h_keys:
-                continue        # created inside the body: fresh in every iteration, never visible in the exit state
+            if key not in h_keys or key in self.c.get('iteration_local', ()):
+                continue        # created inside the body (or a ghost the contract re-initialises at the start of every iteration): never visible in the exit state
             old = h_keys.get(key, None)
             if old is val:
                 continue
